@@ -2,11 +2,13 @@ SPECIFICATION Spec
 CONSTANTS
   MaxImports = 2
   FewMax = 1
-  UseLayouts = {"plain", "tight", "trail", "oneline", "stray"}
-  Layouts3 = {"plain", "tight", "trail"}
+  UseLayouts = {"plain", "tight", "trail", "oneline", "stray", "local"}
+  Layouts3 = {"plain", "tight", "trail", "local"}
   NExporters = {1, 2}
   ExtMaxFull = 0
   ExtMaxLite = 2
   LiteCmts = {"none", "line"}
   ExtLayouts = {"plain", "trail"}
+  BoundMax = 2
+  BoundLayouts = {"plain", "trail"}
 INVARIANTS ReadsBack NewlineFixGood GlueFixGoodIffSeparated GlueOkNeedsSemicolon ApplySane Emit
